@@ -28,7 +28,7 @@ TEMPLATES = [("SELECT '$' FROM t", "lit1"), ("SELECT a FROM t WHERE b = '$' AND 
              ("SELECT \"$\" AS x, b FROM t WHERE c = \"$\" AND d = 'tail'", "lit2"), ("SELECT a FROM t WHERE b = '$' AND c = \"q\" AND d = 'tail'", "lit1")]
 ATOMS = ["SELECT", "FROM", " ", ";", "(", ")", "[", "]", ",", "--", "/*", "#", "+", "<=>", "||", "&&", "!", "=", "a", "B", "0", "1.5", "0x1F", "NULL", "名", "é", "#{p}", "}",
          "{", ".", "%", "^", "~", "|", "&", "<", ">", "@", "$", "?", ":", "x'", "UNION", "WHERE 1=1", "*",
-         "\n", "CROSS", "sort", "USING", "Cluster", "DISTRIBUTE", "JOIN", "AS", "ON", "LIMIT", "ORDER", "GROUP", "BY", "WITH", "END", "\n    "]
+         "，", "；", "（", "）", "：", "！", "？", "＝", "\n", "CROSS", "sort", "USING", "Cluster", "DISTRIBUTE", "JOIN", "AS", "ON", "LIMIT", "ORDER", "GROUP", "BY", "WITH", "END", "\n    "]
 FORBIDDEN = {"lit1": ["'", "\\"], "lit2": ['"', "\\"], "name": ["`", ".", "\n"], "c1": ["\n"], "c2": ["*/", "*"]}
 
 
